@@ -231,6 +231,13 @@ def check(an: Analysis) -> None:
         ob.fail(f, None, "starts that left the window are never dropped: after `limit` calls every later call waits forever-growing times")
     for pnode in pops:
         ob.inst(f, pnode.ast)
+        from ..loader import ancestors as _anc15
+
+        counted = next((a for a in _anc15(pnode.ast) if isinstance(a, ast.For) and isinstance(a.iter, ast.Call) and isinstance(a.iter.func, ast.Name) and a.iter.func.id == "range"), None)
+        if counted is not None:
+            # `for _ in range(<number counted before>): popleft()`: how many entries go is decided elsewhere, by a count - a
+            # different algorithm for the purge, whose agreement with `entries[0] + period <= now` is a fact about values
+            raise AnalysisError("C15.5: expired entries are counted first and then popped by number; this spelling of the purge is not modelled (unrecognised idiom)")
         if not any(within(pnode.ast, lp.ast) for lp in loops):
             ob.fail(f, pnode.ast, "only one old entry is dropped per call")
         # dominating comparison
